@@ -359,6 +359,15 @@ void f_read_buffer (void) {
     {				/* T_BUFFER */
       str = read_buffer (arg[0].u.buf, start, len, &rlen);
     }
+  /* what comes back from a buffer becomes an LPC string, what comes back from a
+   * file becomes a buffer: refuse either while the arguments are still on the
+   * stack and only the copy has to be released (allocate_buffer() below would
+   * raise with the copy held in a C local) */
+  if (str && rlen > (size_t) (from_file ? CONFIG_INT (__MAX_BUFFER_SIZE__) : CONFIG_INT (__MAX_STRING_LENGTH__)))
+    {
+      FREE_MSTR (str);
+      error (from_file ? "read_buffer: result exceeds maximum buffer size.\n" : "read_buffer: result exceeds maximum string length.\n");
+    }
   pop_n_elems (num_arg);
   if (str == 0)
     {
